@@ -43,6 +43,8 @@ type DeployBehaviour struct {
 	BadWritesRun   bool `json:"bad_writes_run,omitempty"`
 	// MismatchRun serves a different schema (without the step) on run deployments.
 	MismatchRun bool `json:"mismatch_run,omitempty"`
+	// CloseDelayMs makes closing a run deployment take this long.
+	CloseDelayMs int `json:"close_delay_ms,omitempty"`
 }
 
 // Script is the whole scripted behaviour of one case.
